@@ -4,6 +4,7 @@ mod sched;
 mod seams;
 mod sessim;
 mod srvsim;
+mod storesim;
 
 thread_local! {
     static PANICS: std::cell::RefCell<Vec<String>> = const { std::cell::RefCell::new(Vec::new()) };
@@ -31,6 +32,7 @@ fn main() {
     match sim {
         "srvsim" => simcore::main_for::<srvsim::SrvSim>(&args[1..]),
         "sessim" => simcore::main_for::<sessim::SesSim>(&args[1..]),
+        "storesim" => simcore::main_for::<storesim::StoreSim>(&args[1..]),
         "bodysim" => simcore::main_for::<bodysim::BodySim>(&args[1..]),
         _ => {
             eprintln!("usage: rt <bodysim|srvsim|sessim|storesim> check|batch|replay …");
